@@ -185,6 +185,25 @@ func (a *Actor) run(p *vos.Proc, c Call) {
 			h.Err = res
 		}
 	}
+	if w.S.ClockStep > 0 && err != nil && err != reftable.ErrLockFailure {
+		if _, isPanic := err.(*rtx.PanicError); !isPanic {
+			// slow-clock scenarios: the code's own deadline (reload gives up after 2.5 s)
+			// may expire; the call then fails honestly, possibly after its commit. Like a
+			// timed-out request it is indeterminate; M-view/M-own/M-dir stay in force.
+			a.Results[len(a.Results)-1] += " [deadline scenario: indeterminate]"
+			if hist >= 0 {
+				w.Hist[hist].Indeterminate = true
+			}
+			if c.Kind == "open" || c.Kind == "reopen" {
+				a.St = nil
+			}
+			w.End(p, ci)
+			if a.St != nil && c.Kind != "read" && c.Kind != "fresh" {
+				a.checkView(p, "after "+c.Kind)
+			}
+			return
+		}
+	}
 	if !faultBefore && p.FaultFired != nil {
 		// an injected I/O error hit this call: any error is a legitimate result (C04's
 		// result rules speak about runs without I/O faults); what stays in force is
